@@ -255,7 +255,7 @@ def run_retry2(entries, req_a, req_b):
     return dict(viol=viol, obs=tuple(obs), log=['existing %r; %r and %r requested together, Tor refuses %r' % (entries, req_a, req_b, req_a)])
 
 
-def run_retry_foreign(entries, requested, foreign, later):
+def run_retry_foreign(entries, requested, foreign, later, pre='refused'):
     """Tor refuses the SETCONF that adds `requested`; then somebody else changes Tor's SOCKS ports to `foreign` (CONF_CHANGED);
     then the caller asks for `later`, which Tor lacks: one SETCONF re-listing what Tor has NOW plus the new line"""
     from refs import ctlcodec
@@ -263,9 +263,14 @@ def run_retry_foreign(entries, requested, foreign, later):
     with World() as w:
         impl = CfgImpl(w, [('SocksPort', list(entries))])
         sim = impl.sim
-        sim.override('SETCONF', (513, [('line', 'Unacceptable option value: rejected by the harness')]))
-        r1 = DRec(impl.cfg.create_socks_endpoint(w.reactor, requested))
-        sim.pump()
+        if pre == 'refused':
+            sim.override('SETCONF', (513, [('line', 'Unacceptable option value: rejected by the harness')]))
+            r1 = DRec(impl.cfg.create_socks_endpoint(w.reactor, requested))
+            sim.pump()
+        else:
+            # the application itself has edited the list in place and not saved (yet) when Tor's lines change
+            impl.cfg.SocksPort.append(requested)
+            r1 = DRec(defer.succeed(None))
         sim.conf['SocksPort'] = list(foreign)
         sim.event_bytes(ctlcodec.encode_event('CONF_CHANGED', 'multi', [''] + ['SocksPort=%s' % e for e in foreign]))
         sim.pump()
@@ -273,7 +278,7 @@ def run_retry_foreign(entries, requested, foreign, later):
         r2 = DRec(impl.cfg.create_socks_endpoint(w.reactor, later))
         sim.pump()
         setconfs = [c for c in sim.commands[base:] if c.upper().startswith('SETCONF')]
-        feat = 'refused-then-foreign-change'
+        feat = 'refused-then-foreign-change' if pre == 'refused' else 'unsaved-edit-then-foreign-change'
         if len(r2.fires) == 1 and r2.kind == 'ok' and later not in sim.conf['SocksPort']:
             viol.append(('endpoint-for-unconfigured-port', feat,
                          'adding %r was refused; Tor then reported %r; the request for %r returned an endpoint having sent %r; Tor has %r'
@@ -429,9 +434,10 @@ def run_task(param, acc):
                 rec_exec(acc, ('retry', tuple(entries), requested), r, dict(fam='retry', entries=entries, requested=requested), cost=len(entries) + 2)
                 for foreign in (['9050 IsolateDestAddr', '9997 SessionGroup=2'], ['unix:/other']):
                     for later in ('5555', requested):
-                        r = run_retry_foreign(entries, requested, foreign, later)
-                        rec_exec(acc, ('retryf', tuple(entries), requested, tuple(foreign), later), r,
-                                 dict(fam='retryf', entries=entries, requested=requested, foreign=foreign, later=later), cost=len(entries) + 6)
+                        for pre in ('refused', 'pending-edit'):
+                            r = run_retry_foreign(entries, requested, foreign, later, pre)
+                            rec_exec(acc, ('retryf', tuple(entries), requested, tuple(foreign), later, pre), r,
+                                     dict(fam='retryf', entries=entries, requested=requested, foreign=foreign, later=later, pre=pre), cost=len(entries) + 6)
             for a, b in itertools.permutations(('9999', 'unix:/new', '9998 IsolateDestAddr'), 2):
                 r = run_retry2(entries, a, b)
                 rec_exec(acc, ('retry2', tuple(entries), a, b), r, dict(fam='retry2', entries=entries, a=a, b=b), cost=len(entries) + 4)
@@ -474,7 +480,7 @@ def replay(p):
     elif p['fam'] == 'retry':
         r = run_retry(p['entries'], p['requested'])
     elif p['fam'] == 'retryf':
-        r = run_retry_foreign(p['entries'], p['requested'], p['foreign'], p['later'])
+        r = run_retry_foreign(p['entries'], p['requested'], p['foreign'], p['later'], p.get('pre', 'refused'))
     elif p['fam'] == 'retry2':
         r = run_retry2(p['entries'], p['a'], p['b'])
     else:
